@@ -45,7 +45,10 @@ static int cmd_replay(int argc, char **argv) {
 	if (plan.fullmem_model) exec::enable_shipped_full_mem_model();
 	// a violation inside the per-process warm-up history itself is replayed as what it is: the first history of a process
 	const bool is_warmup_plan = plan.property == "warmup";
-	if (!is_warmup_plan && !plan.cold) { gen::Context wgc; wgc.property = plan.property; gen::init_context(wgc); exec::Options wopt; wopt.run_index = ~(uint64_t)0; exec::execute(gen::warmup_plan(wgc, plan.warmup_seed), wopt); }
+	// the process history of a worker that started cold begins with its cold plan: no warm-up then either
+	bool cold_prelude = false;
+	if (prelude && !prelude->a.empty()) { if (auto c = prelude->a[0].get("cold")) cold_prelude = c->t == rt::JVal::BOOL && c->b; }
+	if (!is_warmup_plan && !plan.cold && !cold_prelude) { gen::Context wgc; wgc.property = plan.property; gen::init_context(wgc); exec::Options wopt; wopt.run_index = ~(uint64_t)0; exec::execute(gen::warmup_plan(wgc, plan.warmup_seed), wopt); }
 	if (prelude) for (auto &e : prelude->a) {
 		ops::Plan pp; std::string perr;
 		if (!ops::plan_from_json(e, pp, perr)) { fprintf(stderr, "replay: prelude: %s\n", perr.c_str()); return 2; }
